@@ -35,7 +35,7 @@ ASSUMPTIONS = [
     "two same-seed generators constructed before either is used diverge (global RNG): observed, not judged",
     "allow_less_jobs_than_machines=False is judged only when min_jobs >= min_machines (satisfiable)",
 ]
-REQUIRED_COUNTERS = {"seed_zero_generators": 10, "conflicting_flag_cases": 20, "instances_checked": 1500, "seed_twin_pairs": 100, "iteration_checks": 100,
+REQUIRED_COUNTERS = {"partial_explicit_checks": 100, "seed_zero_generators": 10, "conflicting_flag_cases": 20, "instances_checked": 1500, "seed_twin_pairs": 100, "iteration_checks": 100,
                      "flag_no_less_jobs_instances": 150, "multi_machine_support_checks": 20,
                      "no_recirculation_permutation_checks": 300}
 WORKERS = {"quick": 1, "thorough": 14}
@@ -191,6 +191,39 @@ def run_case(ctx, case):
     if errs:
         ctx.violation("c19_explicit_size_not_honoured",
                       {"params": p, "errors": errs[:5], "asked": [J, M], "instance": jobs})
+    # only one size given explicitly: the other one is drawn from its range; a request that
+    # cannot be honoured may be refused with ValidationError, never answered out of range
+    from job_shop_lib.exceptions import ValidationError
+    jr, mr = rng_pair(p["num_jobs"]), rng_pair(p["num_machines"])
+    for which in ("machines", "jobs"):
+        val = rng.randint(max(1, kr[1]), 9)
+        try:
+            inst = (make(p).generate(num_machines=val) if which == "machines"
+                    else make(p).generate(num_jobs=val))
+        except ValidationError:
+            ctx.count("partial_explicit_refused")
+            continue
+        jobs = dump(inst)
+        ctx.count("partial_explicit_checks")
+        Jn, Mn = len(jobs), len(jobs[0])
+        errs = []
+        if which == "machines":
+            if Mn != val:
+                errs.append(f"asked for {val} machines, got {Mn} operations per job")
+            if not jr[0] <= Jn <= jr[1]:
+                errs.append(f"{Jn} jobs drawn outside the requested range {jr}")
+        else:
+            if Jn != val:
+                errs.append(f"asked for {val} jobs, got {Jn}")
+            if not mr[0] <= Mn <= mr[1] and not (not p["allow_less_jobs_than_machines"] and val < mr[0] and Mn <= mr[1]):
+                errs.append(f"{Mn} machines drawn outside the requested range {mr}")
+        if not p["allow_less_jobs_than_machines"] and Jn < Mn:
+            errs.append(f"fewer jobs ({Jn}) than machines ({Mn}) although disallowed")
+        if any(len(j) != Mn for j in jobs) or any(m >= Mn for j in jobs for ms, _ in j for m in ms):
+            errs.append("jobs of unequal length or machine id >= M")
+        if errs:
+            ctx.violation("c19_partial_explicit_size", {"params": p, "which": which, "value": val,
+                                                        "errors": errs})
     # iteration protocol
     if p["iteration_limit"] is not None:
         ctx.count("iteration_checks")
